@@ -456,14 +456,14 @@ func genGraph(t *rapid.T) graphCase {
 		// substitution variants of a repeat-free template, cut at both ends, with unequal counts:
 		// acyclic graphs with bubbles, several sources and branches whose heavy start is a dead end
 		c.K = gen.Len(t, "k", 3, 31, 5, 8, 12)
-		tpl := distinctSeq(t, "template", gen.Len(t, "len", c.K+2, c.K+maxTail), c.K-1)
+		tpl := distinctSeq(t, "template", rapid.IntRange(c.K+2, c.K+maxTail).Draw(t, "len"), c.K-1)
 		n := rapid.IntRange(2, maxSeqs).Draw(t, "nseq")
 		for i := 0; i < n; i++ {
 			e := rapid.SampledFrom([]int{0, 1, 1, 2}).Draw(t, "edits")
 			s, edits := gen.Mutate(t, "mut", tpl, e, gen.ACGT, "s")
 			from, to := 0, len(s)
-			if len(s) > 0 && rapid.Bool().Draw(t, "cut_start") {
-				from = rapid.IntRange(0, len(s)-1).Draw(t, "from")
+			if rapid.IntRange(0, 2).Draw(t, "cut_start") == 0 {
+				from = rapid.IntRange(0, len(s)/2).Draw(t, "from")
 			}
 			switch rapid.SampledFrom([]string{"full", "anywhere", "dead_end", "dead_end"}).Draw(t, "cut_end") {
 			case "anywhere":
